@@ -282,21 +282,26 @@ var c13Templates = []sim.Template{
 		return sc
 	}},
 	{Name: "remembered-2fa-account-password-step-then-settings", F: func(s *sim.Sim) []*sim.Action {
-		// an account WITH a second factor, its browser authenticated by the remember cookie only; the
-		// password step of a new login is parked at the second factor and never completed; settings
-		// requests from that session are requests of a half-authenticated session
-		if !s.RememberActive() || !s.Cfg.Has("auth") || len(s.Cfg.TwoFA) == 0 {
+		// an account WITH a second factor whose browser is authenticated by the remember cookie only (a
+		// second-factor login never sets that cookie, so it dates from before the enrolment); the password
+		// step of a new login is parked at the second factor and never completed; settings requests from
+		// that session are requests of a half-authenticated session
+		if !s.RememberActive() || !s.Cfg.Has("auth") || len(s.Cfg.TwoFA) == 0 || s.Cfg.TwoFAEmail {
 			return nil
 		}
 		k := s.Cfg.TwoFA[s.R.Intn(len(s.Cfg.TwoFA))]
-		v := findAcct(s, func(u *world.User) bool {
-			return u.Confirmed && ((k == "totp" && u.TOTPSecretKey != "" && u.SMSPhone == "") || (k == "sms" && u.SMSPhone != "" && u.TOTPSecretKey == ""))
-		})
+		v := findAcct(s, func(u *world.User) bool { return u.Confirmed && u.TOTPSecretKey == "" && u.SMSPhone == "" })
 		if v < 0 {
 			return nil
 		}
-		sc := []*sim.Action{act("login", 0, v, "ok", "rm", "true"), act(k+"_validate", 0, -9, "ok"), act("dropsid", 0, -9, ""), act("visit", 0, -9, "", "route", "/public"),
-			act("advance", 0, -9, "", "d", "31s"), act("login", 0, v, "ok"), act("regen", 0, -9, ""), act(k+"_remove", 0, -9, pickS(s.R, "ok", "recovery"))}
+		sc := []*sim.Action{act("login", 0, v, "ok", "rm", "true")}
+		if k == "totp" {
+			sc = append(sc, act("totp_setup", 0, -9, ""), act("totp_confirm", 0, -9, "ok"))
+		} else {
+			sc = append(sc, act("sms_setup", 0, -9, "own"), act("sms_confirm", 0, -9, "ok"))
+		}
+		sc = append(sc, act("dropsid", 0, -9, ""), act("visit", 0, -9, "", "route", "/public"), act("advance", 0, -9, "", "d", "31s"), act("login", 0, v, "ok"),
+			act("regen", 0, -9, ""), act(k+"_remove", 0, -9, pickS(s.R, "ok", "recovery")))
 		if k == "totp" {
 			sc = append(sc, act("totp_setup", 0, -9, ""))
 		} else {
